@@ -26,12 +26,18 @@ type c12Case struct {
 }
 
 var c12Segs = []string{"a", "b.json", ".", "..", "c%20d", "é", "x.y", "%41", "e%25f"}
-var c12Bases = []string{"file:///r.json", "file:///d1/r.json", "file:///d1/d2/r.json", "http://h.example/d1/r.json", "https://h.example:8443/r.json", "http://h.example/r.json"}
+var c12Bases = []string{"file:///r.json", "file:///d1/r.json", "file:///d1/d2/r.json", "http://h.example/d1/r.json", "https://h.example:8443/r.json", "http://h.example/r.json", "file:///d1/models/pet", "http://h.example/d1/api"}
 
 const c12Root = "file:///zz/top/root.json"
 
 // loaderURLs runs the observation and returns the URLs requested besides the documents we serve ourselves.
+// c12Title: (via "expand") the title found, after expansion, where the $ref under test stood. The document the
+// $ref designates answers {"definitions":{"x":{"$ref":"#/definitions/y"},"y":{"title":"Y@<requested URL>"}}}:
+// the fragment-only hop inside it must be taken in that document, not in the one the resolver came from.
+var c12Title string
+
 func c12Observe(c c12Case) (got []string, err error, panicked string) {
+	c12Title = ""
 	defer func() {
 		if r := recover(); r != nil {
 			panicked = fmt.Sprint(r)
@@ -81,9 +87,9 @@ func c12Observe(c c12Case) (got []string, err error, panicked string) {
 		}})
 		return got, err, ""
 	default:
-		mid := map[string]any{"definitions": map[string]any{"m": map[string]any{"title": "M", "properties": map[string]any{"p": map[string]any{"$ref": c.Ref}}}, "x": map[string]any{"title": "X-in-base"}}}
+		mid := map[string]any{"definitions": map[string]any{"m": map[string]any{"title": "M", "properties": map[string]any{"p": map[string]any{"$ref": c.Ref}}}, "x": map[string]any{"title": "X-in-base"}, "y": map[string]any{"title": "Y-in-base"}}}
 		root := map[string]any{"swagger": "2.0", "info": map[string]any{"title": "t", "version": "v"}, "paths": map[string]any{},
-			"definitions": map[string]any{"d": map[string]any{"$ref": c.Base + "#/definitions/m"}}}
+			"definitions": map[string]any{"d": map[string]any{"$ref": c.Base + "#/definitions/m"}, "x": map[string]any{"title": "X-in-root"}, "y": map[string]any{"title": "Y-in-root"}}}
 		var sw spec.Swagger
 		if e := json.Unmarshal(mustJSON(root), &sw); e != nil {
 			return nil, e, ""
@@ -98,8 +104,13 @@ func c12Observe(c c12Case) (got []string, err error, panicked string) {
 				return mustJSON(root), nil
 			}
 			got = append(got, p)
-			return json.RawMessage(`{"definitions":{"x":{"title":"T"}}}`), nil
+			return mustJSON(map[string]any{"definitions": map[string]any{"x": map[string]any{"$ref": "#/definitions/y"}, "y": map[string]any{"title": "Y@" + p}}}), nil
 		}})
+		if d, ok := sw.Definitions["d"]; ok && err == nil {
+			if pp, ok := d.Properties["p"]; ok {
+				c12Title = pp.Title
+			}
+		}
 		return got, err, ""
 	}
 }
@@ -142,6 +153,9 @@ func oracleC12(c c12Case) *vstat.Failure {
 		if len(got) != 0 {
 			f.Add("WRONG-DOCUMENT", c.Ref, "$ref %q in document %s designates that document itself, yet the loader was asked for %q", c.Ref, c.Base, got)
 		}
+		if c.Via == "expand" && oerr == nil && r.Fragment == "/definitions/x" && c12Title != "X-in-base" {
+			f.Add("WRONG-DOCUMENT", c.Ref, "$ref %q in document %s designates definitions.x of that document (title X-in-base); the expansion found title %q", c.Ref, c.Base, c12Title)
+		}
 	case len(got) != 1:
 		f.Add("WRONG-DOCUMENT", c.Ref, "$ref %q in document %s: RFC 3986 gives %s, the loader was asked for %q (err=%v)", c.Ref, c.Base, want, got, oerr)
 	default:
@@ -149,8 +163,31 @@ func oracleC12(c c12Case) *vstat.Failure {
 		if err != nil || !sameURL(want, gu) {
 			f.Add("WRONG-DOCUMENT", c.Ref, "$ref %q in document %s: RFC 3986 gives %s, the loader was asked for %q", c.Ref, c.Base, want, got[0])
 		}
+		if c.Via == "expand" && oerr == nil && r.Fragment == "/definitions/x" && c12Title != "Y@"+got[0] {
+			f.Add("WRONG-DOCUMENT", c.Ref, "$ref %q in document %s designates definitions.x of %s, which is {\"$ref\":\"#/definitions/y\"} there: a fragment-only reference designates the containing document, whose y has title %q; the expansion found title %q", c.Ref, c.Base, got[0], "Y@"+got[0], c12Title)
+		}
 	}
 	return f
+}
+
+// c12OtherScheme: URLs that differ from base by the scheme, the host or the port only.
+func c12OtherScheme(base string) []string {
+	u, err := url.Parse(base)
+	if err != nil {
+		return nil
+	}
+	var out []string
+	for _, sc := range []string{"http", "https", "file"} {
+		for _, h := range []string{u.Host, "h.example", "h.example:8443", "other.example", ""} {
+			if (sc == "file") != (h == "") || (sc == u.Scheme && h == u.Host) {
+				continue
+			}
+			v := *u
+			v.Scheme, v.Host = sc, h
+			out = append(out, v.String())
+		}
+	}
+	return out
 }
 
 func c12Excluded(ref string) bool {
@@ -231,6 +268,17 @@ func TestC12(t *testing.T) {
 			}
 		}
 	}
+	// the same host and path under the other scheme (and the same path on another host): another document
+	for _, base := range append(append([]string{}, c12Bases...), "https://h.example/d1/r.json", "http://h.example:8443/r.json") {
+		for _, other := range c12OtherScheme(base) {
+			for _, via := range []string{"resolve", "expand", "chain"} {
+				c := c12Case{Base: base, Ref: other + "#/definitions/x", Via: via}
+				n++
+				r.NonTrivial([]byte(c.Base+" "+c.Ref+" "+via), nil)
+				verdict(t, "C12", "enumerated-other-scheme", c, oracleC12(c))
+			}
+		}
+	}
 	// fixed special cases: empty, fragment-only, absolute
 	for _, c := range []c12Case{{"file:///d1/r.json", "", "resolve"}, {"file:///d1/r.json", "#", "resolve"}, {"file:///d1/r.json", "#/definitions/x", "resolve"}, {"file:///d1/r.json", "#/definitions/x", "expand"},
 		{"http://h.example/d1/r.json", "r.json#/definitions/x", "expand"}, {"file:///d1/r.json", "http://other.example/x/y.json#/definitions/x", "expand"},
@@ -245,9 +293,11 @@ func TestC12(t *testing.T) {
 	}
 	r.SetExhaustive(true)
 	rapid.Check(t, func(t *rapid.T) {
-		base := []string{"file:///r.json", "file:///d1/r.json", "file:///d1/d2/d3/r.json", "http://h.example/d1/r.json", "https://h.example:8443/a/b/r.json", "http://h.example/r.json", "file:///é/ü/r.json", "http://h.example/d%201/r.json"}[gen.Uniform(t, "base", 8)]
+		base := []string{"file:///r.json", "file:///d1/r.json", "file:///d1/d2/d3/r.json", "http://h.example/d1/r.json", "https://h.example:8443/a/b/r.json", "http://h.example/r.json", "file:///é/ü/r.json", "http://h.example/d%201/r.json", "file:///d1/models/pet", "file:///d1/d.v2/api", "https://h.example/d1/r.json"}[gen.Uniform(t, "base", 11)]
 		var ref string
-		if gen.Pct(t, "absolute", 15) {
+		if others := c12OtherScheme(base); len(others) > 0 && gen.Pct(t, "other scheme", 8) {
+			ref = others[gen.Uniform(t, "other", len(others))]
+		} else if gen.Pct(t, "absolute", 15) {
 			ref = []string{"http://other.example/x/y.json", "HTTPS://Other.Example:443/x//y.json", "file:///abs/z.json", "http://h.example:80/d1/r.json", "File:///x/../y.json",
 				"http://other.example/a/../y.json", "https://other.example/./x/./y.json", "http://other.example/a/b/../../c/y.json", "HTTP://other.example/%41/../y.json"}[gen.Uniform(t, "abs", 9)]
 		} else {
